@@ -1,7 +1,6 @@
 package props
 
 import (
-	"encoding/json"
 	"fmt"
 	"go/ast"
 	"go/constant"
@@ -12,7 +11,6 @@ import (
 	"strconv"
 	"strings"
 
-	"lwverif/internal/load"
 	"lwverif/internal/tables"
 )
 
@@ -41,8 +39,8 @@ func checkC12(c *Ctx) {
 	r.Rule("R2.shape", "over the region's positive offsets a row never increases and moves down by at most one defined downlink DR per offset")
 	r.Rule("R3.formula", "cell = max(DR-offset,0) (formula bands) or = transcribed row (US915/AU915)")
 	r.Rule("R4.as923", "AS923 computed RX1 DR = min(5,max(floor,DR-eff[offset])) on the guard-established domain; both arguments bounded on both sides")
-	r.Rule("R5.rx1chan", "RX1 channel index accessor = identity or index mod N (N = number of downlink channels) for every uplink channel index; frequency accessor composes uplink-index -> rx1 index -> downlink table")
-	r.Rule("R6.ping", "ping-slot frequency = regional constant, or (DevAddr big-endian + beaconTime/128s) mod 8 into the 8-entry table")
+	r.Rule("R5.rx1chan", "RX1 channel index accessor = identity or index mod N (N = number of downlink channels) for every uplink channel index; in the same-frequency regions the frequency accessor is the identity on every default channel")
+	r.Rule("R6.ping", "fixed ping-slot regions: the accessor evaluates to the regional constant (hopping regions: R6.ping-e1)")
 	r.Rule("R7.signedindex", "slice/array index by a signed int parameter in a Band method has dominating lower and upper guards")
 
 	bands, err := c.Bands()
@@ -154,6 +152,8 @@ func checkC12(c *Ctx) {
 	})
 	c12LockStep(c)
 	ruleFreshBands(c, "R9.fresh-tables")
+	c12PingE1(c, bands)
+	c12RX1FreqE1(c, bands)
 }
 
 // c12LockStep (R8): the RX1 channel of an uplink channel is found by index in the downlink table, so the two tables
@@ -405,101 +405,8 @@ func c12RX1Channel(c *Ctx, bands *tables.Bands, cfg *tables.BandConfig, fam regB
 		}
 		return
 	}
-	// composed form: structural dataflow check on the AST
-	c12FreqComposition(c, cfg, ff)
-}
-
-// c12FreqComposition checks that in a %-band the frequency accessor is
-// downlinkChannels[ GetRX1ChannelIndexForUplinkChannelIndex( GetUplinkChannelIndex(f, true) ) ].Frequency.
-func c12FreqComposition(c *Ctx, cfg *tables.BandConfig, ff *ast.FuncDecl) {
-	r := c.Run
-	P := c.Prog
-	info := c.Prog.Pkg("band").TypesInfo
-	id := cfg.Short()
-	fpos := P.Rel(ff.Pos())
-	def := map[types.Object]*ast.CallExpr{}
-	ast.Inspect(ff.Body, func(n ast.Node) bool {
-		as, ok := n.(*ast.AssignStmt)
-		if !ok || len(as.Rhs) != 1 {
-			return true
-		}
-		call, ok := as.Rhs[0].(*ast.CallExpr)
-		if !ok {
-			return true
-		}
-		if lid, ok := as.Lhs[0].(*ast.Ident); ok {
-			o := info.Defs[lid]
-			if o == nil {
-				o = info.Uses[lid]
-			}
-			if o != nil {
-				if _, dup := def[o]; dup {
-					def[o] = nil // reassigned: ambiguous
-				} else {
-					def[o] = call
-				}
-			}
-		}
-		return true
-	})
-	calleeName := func(call *ast.CallExpr) string {
-		if sel, ok := call.Fun.(*ast.SelectorExpr); ok {
-			return sel.Sel.Name
-		}
-		return ""
-	}
-	var final *ast.ReturnStmt
-	for _, s := range ff.Body.List {
-		if rs, ok := s.(*ast.ReturnStmt); ok {
-			final = rs
-		}
-	}
-	key := id + "/GetRX1FrequencyForUplinkFrequency/composition"
-	if final == nil || len(final.Results) != 2 {
-		r.Unknown("R5.rx1chan", key, fpos, "final return with two results", "not found")
-		return
-	}
-	// result[0] = <recv>.downlinkChannels[idx].Frequency
-	sel, ok := final.Results[0].(*ast.SelectorExpr)
-	if !ok || sel.Sel.Name != "Frequency" {
-		r.Unknown("R5.rx1chan", key, fpos, "return X.downlinkChannels[i].Frequency", types.ExprString(final.Results[0]))
-		return
-	}
-	ix, ok := sel.X.(*ast.IndexExpr)
-	if !ok {
-		r.Unknown("R5.rx1chan", key, fpos, "indexed channel table", types.ExprString(sel.X))
-		return
-	}
-	tsel, ok := ix.X.(*ast.SelectorExpr)
-	tableOK := ok && tsel.Sel.Name == "downlinkChannels"
-	r.Check(tableOK, "R5.rx1chan", key+"/table", P.Rel(ix.Pos()), "indexes downlinkChannels", types.ExprString(ix.X), true)
-	iid, ok := ix.Index.(*ast.Ident)
-	if !ok {
-		r.Unknown("R5.rx1chan", key, fpos, "index is a local variable", types.ExprString(ix.Index))
-		return
-	}
-	c1 := def[info.Uses[iid]]
-	good1 := c1 != nil && calleeName(c1) == "GetRX1ChannelIndexForUplinkChannelIndex" && len(c1.Args) == 1
-	r.Check(good1, "R5.rx1chan", key+"/rx1index", P.Rel(ix.Pos()), "index := GetRX1ChannelIndexForUplinkChannelIndex(uplinkIndex)", fmt.Sprint(c1 != nil && good1), true)
-	if !good1 {
-		return
-	}
-	aid, ok := c1.Args[0].(*ast.Ident)
-	if !ok {
-		r.Unknown("R5.rx1chan", key, fpos, "argument is a local variable", types.ExprString(c1.Args[0]))
-		return
-	}
-	c2 := def[info.Uses[aid]]
-	good2 := c2 != nil && calleeName(c2) == "GetUplinkChannelIndex" && len(c2.Args) == 2
-	if good2 {
-		// first arg is the frequency parameter, second the constant true (default channel)
-		fid, ok := c2.Args[0].(*ast.Ident)
-		pn := paramNames(ff)
-		good2 = ok && len(pn) == 1 && fid.Name == pn[0]
-		tv := info.Types[c2.Args[1]]
-		good2 = good2 && tv.Value != nil && tv.Value.Kind() == constant.Bool && constant.BoolVal(tv.Value)
-	}
-	r.Check(good2, "R5.rx1chan", key+"/uplinkindex", P.Rel(ff.Pos()), "uplinkIndex := GetUplinkChannelIndex(frequency, true)", fmt.Sprint(good2), true)
+	// composed form (uplink frequency -> uplink index -> index mod N -> downlink frequency): decided for every uplink
+	// frequency at once on the real band object by R5.rx1freq-e1 (c12_e1.go)
 }
 
 func c12Ping(c *Ctx, bands *tables.Bands, cfg *tables.BandConfig, fam regBand) {
@@ -532,239 +439,10 @@ func c12Ping(c *Ctx, bands *tables.Bands, cfg *tables.BandConfig, fam regBand) {
 		r.Unknown("R6.ping", id+"/GetPingSlotFrequency", pos, "oracle entry", "neither fixed nor hop")
 		return
 	}
-	info := c.Prog.Pkg("band").TypesInfo
-	key := id + "/GetPingSlotFrequency/hop"
-	// locate the single % expression: in the method itself or in a helper of package band that it calls
-	findRems := func(body *ast.BlockStmt) []*ast.BinaryExpr {
-		var out []*ast.BinaryExpr
-		ast.Inspect(body, func(n ast.Node) bool {
-			if be, ok := n.(*ast.BinaryExpr); ok && be.Op == token.REM {
-				out = append(out, be)
-			}
-			return true
-		})
-		return out
-	}
-	hopFn := fd
-	var helperCall *ast.CallExpr
-	rems := findRems(fd.Body)
-	if len(rems) == 0 {
-		ast.Inspect(fd.Body, func(n ast.Node) bool {
-			call, ok := n.(*ast.CallExpr)
-			if !ok || helperCall != nil {
-				return true
-			}
-			if fn := calleeFunc(info, call); fn != nil && fn.Pkg() == c.Prog.Pkg("band").Types {
-				for _, cand := range load.AllFuncDecls(c.Prog.Pkg("band")) {
-					if info.Defs[cand.Name] == fn {
-						if rr := findRems(cand.Body); len(rr) == 1 {
-							hopFn, helperCall, rems = cand, call, rr
-						}
-					}
-				}
-			}
-			return true
-		})
-	}
-	if len(rems) != 1 {
-		r.Unknown("R6.ping", key, pos, "exactly one modulo expression (in the method or a helper it calls)", fmt.Sprint(len(rems)))
-		return
-	}
-	rem := rems[0]
-	mv := info.Types[rem.Y].Value
-	if mv == nil && helperCall != nil {
-		// modulus passed as a helper parameter: take the constant argument at the call site
-		if mid, ok := unparen(stripConv(info, rem.Y)).(*ast.Ident); ok && hopFn.Type.Params != nil {
-			idx := 0
-			for _, f := range hopFn.Type.Params.List {
-				for _, nm := range f.Names {
-					if info.Defs[nm] == info.Uses[mid] && idx < len(helperCall.Args) {
-						mv = info.Types[helperCall.Args[idx]].Value
-					}
-					idx++
-				}
-			}
-		}
-	}
-	if mv == nil {
-		r.Unknown("R6.ping", key, pos, "constant modulus", types.ExprString(rem.Y))
-		return
-	}
-	m, _ := constant.Int64Val(mv)
-	r.Check(int(m) == pg.Hop.Mod, "R6.ping", key+"/modulus", P.Rel(rem.Pos()), fmt.Sprint(pg.Hop.Mod), fmt.Sprint(m), true)
-	sum, ok := unparen(rem.X).(*ast.BinaryExpr)
-	if !ok || sum.Op != token.ADD {
-		r.Unknown("R6.ping", key, pos, "(a + b) % m", types.ExprString(rem.X))
-		return
-	}
-	// operands: int(binary.BigEndian.Uint32(devAddr[:])) and int(beaconTime / C)
-	var sawAddr, sawTime bool
-	if t := info.TypeOf(sum); t != nil {
-		// The sum is exact modulo m when it is formed in an unsigned type whose width the power-of-two modulus
-		// divides (wrap-around is invisible modulo m), or in a signed type of at least 64 bits (no wrap for a
-		// 32-bit address plus a beacon count). Judged for both word sizes the library builds for.
-		okAll, got := true, t.String()
-		for _, arch := range []string{"amd64", "386"} {
-			sz := types.SizesFor("gc", arch).Sizeof(t) * 8
-			bt, _ := t.Underlying().(*types.Basic)
-			unsigned := bt != nil && bt.Info()&types.IsUnsigned != 0
-			pow2 := m > 0 && m&(m-1) == 0
-			if !((unsigned && pow2 && sz >= 32) || (!unsigned && sz >= 64)) {
-				okAll = false
-				got = fmt.Sprintf("%s (%d bits on %s)", t.String(), sz, arch)
-			}
-		}
-		r.Check(okAll, "R6.ping", key+"/width", P.Rel(sum.Pos()), "DevAddr + beacon periods formed without a sign wrap: unsigned >= 32 bits with a power-of-two modulus, or signed >= 64 bits, on every supported word size (a 32-bit signed sum is negative for DevAddr >= 0x80000000 and indexes the table out of range)", got, true)
-	}
-	for _, op := range []ast.Expr{sum.X, sum.Y} {
-		inner := stripConv(info, op)
-		// a local defined once by := stands for its defining expression
-		if lid, ok := inner.(*ast.Ident); ok {
-			var defs []ast.Expr
-			ast.Inspect(hopFn.Body, func(n ast.Node) bool {
-				if as, ok := n.(*ast.AssignStmt); ok && len(as.Lhs) == 1 && len(as.Rhs) == 1 {
-					if l, ok := as.Lhs[0].(*ast.Ident); ok && (info.Defs[l] == info.Uses[lid] || info.Uses[l] == info.Uses[lid]) && info.Uses[lid] != nil {
-						defs = append(defs, as.Rhs[0])
-					}
-				}
-				return true
-			})
-			if len(defs) == 1 {
-				inner = stripConv(info, defs[0])
-			}
-		}
-		switch x := inner.(type) {
-		case *ast.CallExpr:
-			// endian decode of the DevAddr parameter
-			fn := calleeFunc(info, x)
-			if fn == nil || fn.Pkg() == nil || fn.Pkg().Path() != "encoding/binary" {
-				r.Unknown("R6.ping", key, pos, "encoding/binary decode of DevAddr", types.ExprString(x))
-				return
-			}
-			recv := ""
-			if sig, ok := fn.Type().(*types.Signature); ok && sig.Recv() != nil {
-				recv = sig.Recv().Type().String()
-			}
-			r.Check(fn.Name() == "Uint32" && recv == "encoding/binary.bigEndian", "R6.ping", key+"/devaddr", P.Rel(x.Pos()), "binary.BigEndian.Uint32(DevAddr[:]) — DevAddr arrays are stored most-significant byte first", recv+"."+fn.Name(), true)
-			// argument must be the full slice of the DevAddr parameter
-			argOK := false
-			if len(x.Args) == 1 {
-				if se, ok := x.Args[0].(*ast.SliceExpr); ok && se.Low == nil && se.High == nil {
-					if pid, ok := se.X.(*ast.Ident); ok {
-						if v, ok := info.Uses[pid].(*types.Var); ok && v.Type().String() == "github.com/brocaar/lorawan.DevAddr" {
-							argOK = true
-						}
-					}
-				}
-			}
-			r.Check(argOK, "R6.ping", key+"/devaddr-arg", P.Rel(x.Pos()), "whole DevAddr parameter", types.ExprString(x.Args[0]), true)
-			sawAddr = true
-		case *ast.BinaryExpr:
-			if x.Op != token.QUO {
-				r.Unknown("R6.ping", key, pos, "beaconTime / period", types.ExprString(x))
-				return
-			}
-			dv := info.Types[x.Y].Value
-			pid, okp := x.X.(*ast.Ident)
-			good := dv != nil && okp
-			if good {
-				d, _ := constant.Int64Val(dv)
-				v, isVar := info.Uses[pid].(*types.Var)
-				good = d == 128_000_000_000 && isVar && v.Type().String() == "time.Duration"
-			}
-			r.Check(good, "R6.ping", key+"/period", P.Rel(x.Pos()), "beaconTime (time.Duration parameter) / 128 s", types.ExprString(x), true)
-			sawTime = true
-		default:
-			r.Unknown("R6.ping", key, pos, "recognised operand", types.ExprString(op))
-			return
-		}
-	}
-	r.Check(sawAddr && sawTime, "R6.ping", key+"/operands", pos, "DevAddr term + beacon-period term", fmt.Sprintf("addr=%v time=%v", sawAddr, sawTime), true)
-	// the table indexed by the result
-	var tableDesc string
-	tableOK := false
-	var hopVar types.Object
-	ast.Inspect(hopFn.Body, func(n ast.Node) bool {
-		if as, ok := n.(*ast.AssignStmt); ok && len(as.Rhs) == 1 && unparen(as.Rhs[0]) == ast.Expr(rem) {
-			if lid, ok := as.Lhs[0].(*ast.Ident); ok {
-				hopVar = info.Defs[lid]
-			}
-		}
-		return true
-	})
-	if helperCall != nil {
-		// the helper must return the hop value; in the method the index is the helper's result
-		retOK := false
-		ast.Inspect(hopFn.Body, func(n ast.Node) bool {
-			if rs, ok := n.(*ast.ReturnStmt); ok && len(rs.Results) >= 1 {
-				e := stripConv(info, rs.Results[0])
-				if e == ast.Expr(rem) {
-					retOK = true
-				}
-				if rid, ok := e.(*ast.Ident); ok && hopVar != nil && info.Uses[rid] == hopVar {
-					retOK = true
-				}
-			}
-			return true
-		})
-		r.Check(retOK, "R6.ping", key+"/helper-returns-hop", P.Rel(hopFn.Pos()), "helper returns the hop value", fmt.Sprint(retOK), true)
-		hopVar = nil
-		ast.Inspect(fd.Body, func(n ast.Node) bool {
-			if as, ok := n.(*ast.AssignStmt); ok && len(as.Rhs) == 1 && unparen(as.Rhs[0]) == ast.Expr(helperCall) {
-				if lid, ok := as.Lhs[0].(*ast.Ident); ok {
-					hopVar = info.Defs[lid]
-				}
-			}
-			return true
-		})
-	}
-	var final *ast.ReturnStmt
-	for _, s := range fd.Body.List {
-		if rs, ok := s.(*ast.ReturnStmt); ok {
-			final = rs
-		}
-	}
-	if final == nil || len(final.Results) != 2 {
-		r.Unknown("R6.ping", key, pos, "final return", "not found")
-		return
-	}
-	res0 := final.Results[0]
-	if sel, ok := res0.(*ast.SelectorExpr); ok && sel.Sel.Name == "Frequency" {
-		res0 = sel.X
-		tableDesc = ".Frequency of "
-	}
-	ix, ok := res0.(*ast.IndexExpr)
-	if !ok {
-		r.Unknown("R6.ping", key, pos, "indexed table", types.ExprString(final.Results[0]))
-		return
-	}
-	iid, ok := ix.Index.(*ast.Ident)
-	idxOK := ok && hopVar != nil && info.Uses[iid] == hopVar
-	if helperCall != nil && unparen(ix.Index) == ast.Expr(helperCall) {
-		idxOK = true
-	}
-	r.Check(idxOK, "R6.ping", key+"/index", P.Rel(ix.Pos()), "table indexed by the hop expression", types.ExprString(ix.Index), true)
-	var wantTab string
-	var wantList []int
-	if json.Unmarshal(pg.Hop.Table, &wantTab) == nil && wantTab == "downlink" {
-		tsel, ok := ix.X.(*ast.SelectorExpr)
-		tableOK = ok && tsel.Sel.Name == "downlinkChannels" && tableDesc != ""
-		dn, err := cfg.Channels("downlinkChannels")
-		tableOK = tableOK && err == nil && len(dn) == pg.Hop.Mod
-		r.Check(tableOK, "R6.ping", key+"/table", P.Rel(ix.Pos()), fmt.Sprintf("downlinkChannels (%d entries).Frequency", pg.Hop.Mod), tableDesc+types.ExprString(ix.X), true)
-	} else if json.Unmarshal(pg.Hop.Table, &wantList) == nil {
-		v := bands.Ev.Eval(ix.X, tables.NewEnv(nil))
-		sl, ok := v.(*tables.Slice)
-		good := ok && len(sl.Elems) == len(wantList) && tableDesc == ""
-		if good {
-			for i, e := range sl.Elems {
-				if n, ok := tables.AsInt(e); !ok || n != wantList[i] {
-					good = false
-				}
-			}
-		}
-		r.Check(good, "R6.ping", key+"/table", P.Rel(ix.Pos()), fmt.Sprint(wantList), tables.Show(v), true)
-	}
+	// hopping regions: decided for every DevAddr and beacon time on the real band object by R6.ping-e1 (c12_e1.go);
+	// the earlier syntactic recogniser of the hop expression is retired (it refuted correct code that computes the
+	// frequency inside a helper)
+	r.Saw("hopping ping-slot regions (decided by R6.ping-e1)", id)
 }
 
 func minInt(a, b int) int {
